@@ -1,6 +1,19 @@
-(* Model of annotateast.TypeConvertStr (langserver/check/annotation/annotateast/annotate_util.go: TypeConvertStr, needParenInArray),
-   the printer used for hover / completion text.  No index can go out of range: ParamTypeList[index] is guarded
-   by len(ParamTypeList) > index (and the three parameter lists always have the same length). *)
+(* Model of annotateast.TypeConvertStr (langserver/check/annotation/annotateast/annotate_util.go: TypeConvertStr,
+   needParenInArray, isUnionType, isFuncType, listTypeConvertStr, isDefaultParamType), the printer used for hover /
+   completion text.  No index can go out of range: ParamTypeList[index] / ParamOptionList[index] are guarded by
+   len(...) > index (and the three parameter lists always have the same length).
+
+   The printer is parametrised by the repairs that are in the code (`ann_fixes`, Model/AnnAst.v):
+     fx_const = false   a string constant is printed without its quotes: Name, or "Name" when QuotesFlag
+     fx_const = true    'Name', or '"Name"' when QuotesFlag                  (fixes/C16-printer-const.diff)
+     fx_union = true    a member of a MultiType with several members that is itself a union (isUnionType) is
+                        parenthesised                                        (fixes/C16-printer-nested-union.diff)
+     fx_fun = false     fun types are printed `function(a: T, b: U): R`: no `?`, no parentheses, `: any` for a
+                        parameter without a type
+     fx_fun = true      `fun(a: T, b?: U, c): R`; a fun type is parenthesised as a member of a union and in the
+                        comma separated positions (parameter / return type, table key / value)
+                                                                             (fixes/C16-printer-fun.diff)
+   `type_convert_str` is the printer of the code as it is (`deployed`). *)
 From Coq Require Import String Ascii List NArith Bool.
 From LH Require Import Base.Bytes Base.Res Model.AnnLexer Model.AnnAst.
 Import ListNotations.
@@ -13,6 +26,8 @@ Definition s_table_lt : bytes := Eval vm_compute in bs "table<".
 Definition s_comma_sp : bytes := Eval vm_compute in bs ", ".
 Definition s_colon_sp : bytes := Eval vm_compute in bs ": ".
 Definition s_function : bytes := Eval vm_compute in bs "function(".
+Definition s_fun_lp : bytes := Eval vm_compute in bs "fun(".
+Definition s_any_name : bytes := Eval vm_compute in bs "any".
 
 (* needParenInArray: the item of an array keeps its parentheses when it is a union, a fun type or an array
    (a MultiType of one member is looked through) *)
@@ -27,27 +42,95 @@ Fixpoint need_paren_in_array (t : atype) : bool :=
   | _ => false
   end.
 
-Fixpoint type_convert_str (t : atype) : bytes :=
+(* isUnionType: a MultiType of several members (a MultiType of one member is looked through) *)
+Fixpoint is_union_type (t : atype) : bool :=
   match t with
   | AMulti ts =>
-    (* strOne == "" is skipped; " | " between the others *)
-    fold_left (fun acc one =>
-                 let s := type_convert_str one in
-                 if is_nil s then acc else (if is_nil acc then s else acc ++ s_bar ++ s)) ts []
-  | ANormal n _ => n
-  | AArray i =>
-    let s := type_convert_str i in
-    (if need_paren_in_array i then [40] ++ s ++ [41] else s) ++ s_brackets
-  | ATableEmpty => s_table
-  | ATable k v => s_table_lt ++ type_convert_str k ++ s_comma_sp ++ type_convert_str v ++ [62]
-  | AFun ps rs =>
-    let pstr :=
-      fold_left (fun acc p =>
-                   let '(n, _, ty) := p in
-                   (if is_nil acc then [] else acc ++ s_comma_sp) ++ n ++ s_colon_sp ++ type_convert_str ty) ps [] in
-    let rstr :=
-      fold_left (fun acc r =>
-                   (if is_nil acc then s_colon_sp else acc ++ s_comma_sp) ++ type_convert_str r) rs [] in
-    s_function ++ pstr ++ [41] ++ rstr
-  | AConst n q _ => if q then [34] ++ n ++ [34] else n
+    match ts with
+    | [x] => is_union_type x
+    | _ => Nat.ltb 1 (length ts)
+    end
+  | _ => false
   end.
+
+(* isFuncType *)
+Fixpoint is_fun_type (t : atype) : bool :=
+  match t with
+  | AMulti ts =>
+    match ts with
+    | [x] => is_fun_type x
+    | _ => false
+    end
+  | AFun _ _ => true
+  | _ => false
+  end.
+
+(* isDefaultParamType: the NormalType{"any", ShowColor: false} the parser supplies for a parameter without a type *)
+Definition is_default_param_type (t : atype) : bool :=
+  match t with
+  | ANormal n false => beq_bytes n s_any_name
+  | _ => false
+  end.
+
+(* "a, b, c": `if index > 0 { str += sep }` in front of every element *)
+Fixpoint join_sep (sep : bytes) (l : list bytes) : bytes :=
+  match l with
+  | [] => []
+  | x :: r => match r with [] => x | _ => x ++ sep ++ join_sep sep r end
+  end.
+
+Definition in_parens (b : bool) (s : bytes) : bytes := if b then [40] ++ s ++ [41] else s.
+
+Section Print.
+  Variable fx : ann_fixes.
+
+  Fixpoint type_convert_str_fx (t : atype) : bytes :=
+    match t with
+    | AMulti ts =>
+      (* strOne == "" is skipped; parentheses where the repairs ask for them; " | " between the others *)
+      fold_left (fun acc one =>
+                   let s := type_convert_str_fx one in
+                   if is_nil s then acc
+                   else
+                     let s := in_parens (Nat.ltb 1 (length ts) &&
+                                         ((fx_fun fx && is_fun_type one) || (fx_union fx && is_union_type one))) s in
+                     if is_nil acc then s else acc ++ s_bar ++ s) ts []
+    | ANormal n _ => n
+    | AArray i =>
+      let s := type_convert_str_fx i in
+      (if need_paren_in_array i then [40] ++ s ++ [41] else s) ++ s_brackets
+    | ATableEmpty => s_table
+    | ATable k v =>
+      (* listTypeConvertStr when fx_fun *)
+      s_table_lt ++ in_parens (fx_fun fx && is_fun_type k) (type_convert_str_fx k) ++ s_comma_sp ++
+      in_parens (fx_fun fx && is_fun_type v) (type_convert_str_fx v) ++ [62]
+    | AFun ps rs =>
+      if fx_fun fx then
+        s_fun_lp ++
+        join_sep s_comma_sp
+          (map (fun p : bytes * bool * atype =>
+                  let '(n, o, ty) := p in
+                  n ++ (if o then [63] else []) ++
+                  (if is_default_param_type ty then []
+                   else s_colon_sp ++ in_parens (is_fun_type ty) (type_convert_str_fx ty))) ps) ++
+        [41] ++
+        (if is_nil rs then []
+         else s_colon_sp ++
+              join_sep s_comma_sp (map (fun r => in_parens (is_fun_type r) (type_convert_str_fx r)) rs))
+      else
+        let pstr :=
+          fold_left (fun acc p =>
+                       let '(n, _, ty) := p in
+                       (if is_nil acc then [] else acc ++ s_comma_sp) ++ n ++ s_colon_sp ++ type_convert_str_fx ty) ps [] in
+        let rstr :=
+          fold_left (fun acc r =>
+                       (if is_nil acc then s_colon_sp else acc ++ s_comma_sp) ++ type_convert_str_fx r) rs [] in
+        s_function ++ pstr ++ [41] ++ rstr
+    | AConst n q _ =>
+      if fx_const fx then [39] ++ (if q then [34] ++ n ++ [34] else n) ++ [39]
+      else if q then [34] ++ n ++ [34] else n
+    end.
+End Print.
+
+(* TypeConvertStr of the code as it is *)
+Definition type_convert_str : atype -> bytes := type_convert_str_fx deployed.
